@@ -46,6 +46,9 @@ pub fn all_repeats() -> Vec<Unary> {
     }
     // `X{0}`: matches the empty string, groups inside never participate
     v.push(Unary::Rep(0, Some(0), Mode::Greedy));
+    // `X{1}` and `X{1}?`: exactly once, whatever the greediness
+    v.push(Unary::Rep(1, Some(1), Mode::Greedy));
+    v.push(Unary::Rep(1, Some(1), Mode::Lazy));
     v
 }
 
@@ -60,6 +63,8 @@ pub fn basic_repeats() -> Vec<Unary> {
         Unary::Rep(2, Some(2), Mode::Greedy),
         Unary::Rep(1, Some(2), Mode::Greedy),
         Unary::Rep(1, Some(2), Mode::Lazy),
+        Unary::Rep(1, Some(1), Mode::Greedy),
+        Unary::Rep(1, Some(1), Mode::Lazy),
     ]
 }
 
@@ -497,6 +502,7 @@ pub fn contexts() -> Vec<Context> {
         ("(?:(□)x\\1)+", plus(cat(vec![grp(h0()), x(), Node::Backref(1)]))),
         ("(□)(□')\\2\\1", cat(vec![grp(h0()), grp(h1()), Node::Backref(2), Node::Backref(1)])),
         ("(?=(□))\\1", cat(vec![la(grp(h0())), Node::Backref(1)])),
+        ("(?>□)(□')\\1", cat(vec![atomic(h0()), grp(h1()), Node::Backref(1)])),
         ("(?:(□)|x)\\1?", cat(vec![alt(vec![grp(h0()), x()]), opt(Node::Backref(1))])),
         // self-referential back-references (unscoped: used by C05/C07/C09 only)
         ("(?:(\\1?□)□')+", plus(cat(vec![grp(cat(vec![opt(Node::Backref(1)), h0()])), h1()]))),
